@@ -37,7 +37,7 @@ contract(
     exsures={"ValueError": ["len(npath) >= 1 and leading_ats(npath, len(npath))"]},
     loops={0: Loop(invariant=["depth == _i", "at_run(npath[:_i]) == 1", "implies(_i >= 1, npath[0] == '@')"])},
     canaries=["implies(result is not None, leading_ats(npath, result[0] + 1))"],
-    props=EDIT_PROPS,
+    props=EDIT_PROPS + ["C12", "C16"],  # an `@` inside a quoted name is part of the name (C12); too-deep selectors are errors (C16)
 )
 
 _NP_INV = [
@@ -188,7 +188,7 @@ contract(
     ensures=[],
     exsures={"ValueError": [], "KeyError": []},
     domain=False,
-    props=EDIT_PROPS + ["C07"],
+    props=EDIT_PROPS + ["C07", "C16"],
 )
 
 contract(
@@ -213,7 +213,7 @@ contract(
     exsures={"ValueError": [], "KeyError": []},
     loops={0: Loop(invariant=["True"], modifies=["source.trailing[]"])},
     domain=False,
-    props=EDIT_PROPS,
+    props=EDIT_PROPS + ["C16"],  # "exit 0 only on success": which edits the library refuses is what the CLI reports
 )
 
 contract(
